@@ -2035,6 +2035,20 @@ class Builtin:
         n = self.name
         if n == "noop":
             return None
+        if n == "asyncio.Event":
+            # asyncio.Event on a model loop that runs ONE coroutine: set / clear / is_set as documented; waiting for an
+            # event that is not set can only end if somebody else sets it - on the model nobody else runs
+            ev = Obj(None, {"_flag": False}, name="asyncio.Event")
+
+            def _wait(a, k, ev=ev):
+                if ev.attrs["_flag"]:
+                    return True
+                raise PyRaise("DeadlockError: await on an asyncio.Event that no running task can set (the task meant to set it has not run - or was cancelled before its first step)", node)
+            ev.attrs.update({"set": Native(lambda a, k, ev=ev: ev.attrs.__setitem__("_flag", True), "Event.set"),
+                             "clear": Native(lambda a, k, ev=ev: ev.attrs.__setitem__("_flag", False), "Event.clear"),
+                             "is_set": Native(lambda a, k, ev=ev: ev.attrs["_flag"], "Event.is_set"),
+                             "wait": Native(_wait, "Event.wait")})
+            return ev
         if n == "property":
             return PropertyObj(args[0] if args else kwargs.get("fget"), args[1] if len(args) > 1 else kwargs.get("fset"))
         if n == "logging.getLogger":
